@@ -282,6 +282,21 @@ def run (ctx):
   import re as re_
   fatal_fact = lambda f: re_.fullmatch(r'\w+\.errno != errno\.EAGAIN', f) is not None or re_.fullmatch(r'\w+\.errno not in \(errno\.EAGAIN, errno\.EWOULDBLOCK\)', f) is not None
   okc = any(any(fatal_fact(f) for f in q.fact_strs(g, n)) and g.postdominates([x for x in g.nodes if x.kind == 'return'], n) for n in fat)
+  if not okc:
+    # by evaluation from the exception handler, with the error not being EAGAIN: every path closes the worker and none reaches the
+    # queueing call (flags and markers of an inlined helper are followed by constant propagation)
+    is_ne = lambda e: isinstance(e, ast.Compare) and len(e.ops) == 1 and isinstance(e.ops[0], ast.NotEq) and norm(e.left).endswith('.errno') and 'EAGAIN' in norm(e.comparators[0])
+    is_eq = lambda e: isinstance(e, ast.Compare) and len(e.ops) == 1 and isinstance(e.ops[0], ast.Eq) and norm(e.left).endswith('.errno') and 'EAGAIN' in norm(e.comparators[0])
+    qn_ = g.nodes_with_call(lambda c: call_name(c) == 'send' and norm(c.func.value) in ('IOWorker', 'super(RecocoIOWorker, self)', 'super()'))
+    hs_ = [h_ for h_ in g.nodes if h_.kind == 'handler' and h_.ast.type is not None and 'error' in norm(h_.ast.type)]
+    res_ = []
+    for h_ in hs_:
+      # the state the try was entered with: everything the function computed before is unknown except the flags the normaliser introduced,
+      # which are initialised right before the try - start from the function entry and take only the paths through this handler
+      for p_, e_ in q.paths_under(repo, iom, g, q.Env(dict(base), [(is_ne, True), (is_eq, False)]), g.entry, [g.exit], riw, limit=300, exc=True):
+        if h_ not in p_: continue
+        res_.append((any(any(call_name(c_) == 'close' for c_ in q.node_calls(n_)) for n_ in p_), any(n_ in qn_ for n_ in p_)))
+    if res_ and all(cl_ and not qd_ for cl_, qd_ in res_): okc = True
   ctx.ob('R-EFFECT', sfast, "a fatal error in send_fast closes the worker and queues nothing", okc, "close(); return under errno != EAGAIN" if okc else "fatal branch changed", sfast, 'D5')
   for f in (iclose, rclose):
     g = q.cfg_of(f)
